@@ -978,9 +978,12 @@ def run(ctx):
     def rand_seq():
         return [rng.choice(OBSERVERS) for _ in range(rng.randint(2, 7))] + ["to_json"]
 
-    for case in infos[: ctx.n(200, 2000)]:
+    # the Coq witness of C06_iterate_units_mutates_refuted (Proofs.wit_c / wit_h), replayed on the real class first
+    witness = {"title": "", "paragraphs": [{"text": "a", "style": None, "outline": None}], "tables": [],
+               "heap": [{"caption": "", "description": "", "unit_name": None, "rest": "img"}], "images": [0], "full_text": "a"}
+    for k, case in enumerate([witness] + infos[: ctx.n(200, 2000)]):
         c, _ = build_odt(case)
-        seq = rand_seq()
+        seq = ["iterate_units", "to_json"] if k == 0 else rand_seq()
         for name, kind in observer_sequence_oracle(c, seq, "generated"):
             ctx.finding(f"observer-impure:OdtContent.{name}", f"OdtContent.{name}() {kind} (generated object, sequence {seq})",
                         {"case": case, "sequence": seq, "observer": name, "kind": kind})
